@@ -477,7 +477,9 @@ func (q dec) divBasic(u, v dec) {
 			// If n == qhl, the carry from subVV and the carry from addVV
 			// cancel out and don't affect u[j+n].
 			if n < qhl {
-				u[j+n] += c
+				// decimal add: the carry cancels the borrow of the
+				// subtraction above (u[j+n] wraps from _DMax to 0)
+				add10VW(u[j+n:j+n+1], u[j+n:j+n+1], c)
 			}
 			qhat--
 		}
